@@ -72,3 +72,77 @@ package eventloop
 //@   loop 0 invariant [delivered] forall i int :: {traceat(added, 0, i)} old(tracelen(added)) <= i && i < tracelen(added) ==> traceat(added, 0, i) == old(el.waitingEvents[t][now(i) - tracelen(added)])
 //@   loop 0 invariant [list] old(has(el.waitingEvents, t)) ==> sameslice(events, old(el.waitingEvents[t])) && (forall j int :: {events[j]} 0 <= j && j < len(events) ==> events[j] == old(el.waitingEvents[t][now(j)]))
 //@   loop 0 invariant [table] !has(el.waitingEvents, t) || !old(has(el.waitingEvents, t))
+
+// ---- dispatch (C14: "handled ... each exactly once by every handler registered for its type,
+// with prioritised handlers running before ordinary ones"). The ghost trace `cb` records every
+// call of a handler (function value, event). hmatch: handler m of the list is registered for
+// this phase (inside / outside AddEvent) and not unregistered. pcnt / ncnt count the matching
+// prioritised / ordinary handlers among the first n. The contract says: the k-th matching
+// prioritised handler is the k-th call, the k-th matching ordinary handler is call number
+// (all prioritised) + k, each with the event, and there are no other calls.
+//@ pure func hmatch(hs []handler, m int, r bool) bool = hs[m].callback != nil && hs[m].opts.runInAddEvent == r
+//@ pure func pcnt(hs []handler, n int, r bool) int = n <= 0 ? 0 : pcnt(hs, n - 1, r) + (hmatch(hs, n - 1, r) && hs[n - 1].opts.priority ? 1 : 0) decreases n
+//@ pure func ncnt(hs []handler, n int, r bool) int = n <= 0 ? 0 : ncnt(hs, n - 1, r) + (hmatch(hs, n - 1, r) && !hs[n - 1].opts.priority ? 1 : 0) decreases n
+//@ lemma pcnt_bounds(hs []handler, n int, r bool) property C14
+//@   ensures 0 <= pcnt(hs, n, r) && pcnt(hs, n, r) <= (n < 0 ? 0 : n)
+//@   decreases n < 0 ? 0 : n
+//@   trigger pcnt(hs, n, r)
+//@   proof if n > 0 { use pcnt_bounds(hs, n - 1, r) }
+//@ lemma ncnt_bounds(hs []handler, n int, r bool) property C14
+//@   ensures 0 <= ncnt(hs, n, r) && ncnt(hs, n, r) <= (n < 0 ? 0 : n)
+//@   decreases n < 0 ? 0 : n
+//@   trigger ncnt(hs, n, r)
+//@   proof if n > 0 { use ncnt_bounds(hs, n - 1, r) }
+//@ lemma pcnt_mono(hs []handler, m int, n int, r bool) property C14
+//@   requires 0 <= m && m < n && hmatch(hs, m, r) && hs[m].opts.priority
+//@   ensures pcnt(hs, m, r) < pcnt(hs, n, r)
+//@   decreases n
+//@   trigger pcnt(hs, m, r), pcnt(hs, n, r)
+//@   proof if m < n - 1 { use pcnt_mono(hs, m, n - 1, r) }
+//@ lemma ncnt_mono(hs []handler, m int, n int, r bool) property C14
+//@   requires 0 <= m && m < n && hmatch(hs, m, r) && !hs[m].opts.priority
+//@   ensures ncnt(hs, m, r) < ncnt(hs, n, r)
+//@   decreases n
+//@   trigger ncnt(hs, m, r), ncnt(hs, n, r)
+//@   proof if m < n - 1 { use ncnt_mono(hs, m, n - 1, r) }
+
+// The list pool hands out empty lists that share storage with nothing else (sync.Pool; every
+// list is emptied before it is put back: checked at the Put calls of processEvent).
+//@ func (*pool[[]EventHandler[any]]).Get
+//@   trusted sync.Pool: returns a list that was put back (emptied) or a new one; not shared
+//@   ensures len(val) == 0 && (cap(val) == 0 || fresh(val))
+//@   modifies alloc
+//@ func (*pool[[]EventHandler[any]]).Put
+//@   trusted sync.Pool
+//@   requires [emptied] len(val) == 0
+
+//@ func (*EventLoop).processEvent property C14
+//@   opt callbacks trace
+//@   requires event != nil && wdisj(el)
+//@   uses pcnt_bounds
+//@   uses ncnt_bounds
+//@   uses pcnt_mono
+//@   uses ncnt_mono
+//@   modifies trace(cb), trace(added), el.waitingEvents[*], el.eventQ.head, el.eventQ.tail, el.eventQ.entries[*], alloc
+//@   ensures [count] tracelen(cb) == old(tracelen(cb)) + old(pcnt(el.handlers[typeof(event)], len(el.handlers[typeof(event)]), runningInAddEvent)) + old(ncnt(el.handlers[typeof(event)], len(el.handlers[typeof(event)]), runningInAddEvent))
+//@   loop 0 invariant [lists] (fresh(priorityList) || cap(priorityList) == 0) && (fresh(handlerList) || cap(handlerList) == 0) && (cap(priorityList) > 0 && cap(handlerList) > 0 ==> disjoint(priorityList, handlerList))
+//@   loop 0 invariant [collected-priority] forall k int :: {priorityList[k]} 0 <= k && k < len(priorityList) ==> priorityList[k] != nil
+//@   loop 0 invariant [collected-ordinary] forall k int :: {handlerList[k]} 0 <= k && k < len(handlerList) ==> handlerList[k] != nil
+//@   loop 1 invariant [collected-priority] forall k int :: {priorityList[k]} 0 <= k && k < len(priorityList) ==> priorityList[k] != nil
+//@   loop 1 invariant [collected-ordinary] forall k int :: {handlerList[k]} 0 <= k && k < len(handlerList) ==> handlerList[k] != nil
+//@   loop 2 invariant [collected-ordinary] forall k int :: {handlerList[k]} 0 <= k && k < len(handlerList) ==> handlerList[k] != nil
+//@   loop 0 invariant [plen] len(priorityList) == pcnt(el.handlers[t], rangeindex + 1, runningInAddEvent) && len(handlerList) == ncnt(el.handlers[t], rangeindex + 1, runningInAddEvent)
+//@   loop 0 invariant [pidx-range] forall m int :: {el.handlers[t][m]} 0 <= m && m <= rangeindex && hmatch(el.handlers[t], m, runningInAddEvent) && el.handlers[t][m].opts.priority ==> 0 <= pcnt(el.handlers[t], m, runningInAddEvent) && pcnt(el.handlers[t], m, runningInAddEvent) < len(priorityList)
+//@   loop 0 invariant [nidx-range] forall m int :: {el.handlers[t][m]} 0 <= m && m <= rangeindex && hmatch(el.handlers[t], m, runningInAddEvent) && !el.handlers[t][m].opts.priority ==> 0 <= ncnt(el.handlers[t], m, runningInAddEvent) && ncnt(el.handlers[t], m, runningInAddEvent) < len(handlerList)
+//@   loop 0 invariant [pidx] forall m int :: {el.handlers[t][m]} 0 <= m && m <= rangeindex && hmatch(el.handlers[t], m, runningInAddEvent) && el.handlers[t][m].opts.priority ==> priorityList[pcnt(el.handlers[t], m, runningInAddEvent)] == el.handlers[t][m].callback
+//@   loop 0 invariant [nidx] forall m int :: {el.handlers[t][m]} 0 <= m && m <= rangeindex && hmatch(el.handlers[t], m, runningInAddEvent) && !el.handlers[t][m].opts.priority ==> handlerList[ncnt(el.handlers[t], m, runningInAddEvent)] == el.handlers[t][m].callback
+//@   loop 1 invariant [pcalled] forall k int :: {traceat(cb, 0, k)} old(tracelen(cb)) <= k && k < tracelen(cb) ==> traceat(cb, 0, k) == priorityList[k - old(tracelen(cb))] && traceat(cb, 1, k) == event
+//@   loop 1 invariant [nidx] forall m int :: {el.handlers[t][m]} 0 <= m && m < len(el.handlers[t]) && hmatch(el.handlers[t], m, runningInAddEvent) && !el.handlers[t][m].opts.priority ==> handlerList[ncnt(el.handlers[t], m, runningInAddEvent)] == el.handlers[t][m].callback
+//@   loop 1 invariant [pidx] forall m int :: {el.handlers[t][m]} 0 <= m && m < len(el.handlers[t]) && hmatch(el.handlers[t], m, runningInAddEvent) && el.handlers[t][m].opts.priority ==> priorityList[pcnt(el.handlers[t], m, runningInAddEvent)] == el.handlers[t][m].callback
+//@   loop 2 invariant [priority-first] forall m int :: {el.handlers[t][m]} 0 <= m && m < len(el.handlers[t]) && hmatch(el.handlers[t], m, runningInAddEvent) && el.handlers[t][m].opts.priority ==> traceat(cb, 0, old(tracelen(cb)) + pcnt(el.handlers[t], m, runningInAddEvent)) == el.handlers[t][m].callback && traceat(cb, 1, old(tracelen(cb)) + pcnt(el.handlers[t], m, runningInAddEvent)) == event
+//@   loop 2 invariant [nidx] forall m int :: {el.handlers[t][m]} 0 <= m && m < len(el.handlers[t]) && hmatch(el.handlers[t], m, runningInAddEvent) && !el.handlers[t][m].opts.priority ==> handlerList[ncnt(el.handlers[t], m, runningInAddEvent)] == el.handlers[t][m].callback
+//@   loop 2 invariant [ncalled] forall k int :: {traceat(cb, 0, k)} old(tracelen(cb)) + pcnt(el.handlers[t], len(el.handlers[t]), runningInAddEvent) <= k && k < tracelen(cb) ==> traceat(cb, 0, k) == handlerList[k - old(tracelen(cb)) - pcnt(el.handlers[t], len(el.handlers[t]), runningInAddEvent)] && traceat(cb, 1, k) == event
+//@   ensures [priority-first] forall m int :: {old(el.handlers[typeof(event)][m])} 0 <= m && m < old(len(el.handlers[typeof(event)])) && old(hmatch(el.handlers[typeof(event)], m, runningInAddEvent)) && old(el.handlers[typeof(event)][m].opts.priority) ==> traceat(cb, 0, old(tracelen(cb)) + old(pcnt(el.handlers[typeof(event)], m, runningInAddEvent))) == old(el.handlers[typeof(event)][m].callback) && traceat(cb, 1, old(tracelen(cb)) + old(pcnt(el.handlers[typeof(event)], m, runningInAddEvent))) == event
+//@   ensures [ordinary-after] forall m int :: {old(el.handlers[typeof(event)][m])} 0 <= m && m < old(len(el.handlers[typeof(event)])) && old(hmatch(el.handlers[typeof(event)], m, runningInAddEvent)) && !old(el.handlers[typeof(event)][m].opts.priority) ==> traceat(cb, 0, old(tracelen(cb)) + old(pcnt(el.handlers[typeof(event)], len(el.handlers[typeof(event)]), runningInAddEvent)) + old(ncnt(el.handlers[typeof(event)], m, runningInAddEvent))) == old(el.handlers[typeof(event)][m].callback) && traceat(cb, 1, old(tracelen(cb)) + old(pcnt(el.handlers[typeof(event)], len(el.handlers[typeof(event)]), runningInAddEvent)) + old(ncnt(el.handlers[typeof(event)], m, runningInAddEvent))) == event
+//@   loop 1 invariant [pcalls] tracelen(cb) == old(tracelen(cb)) + rangeindex + 1
+//@   loop 2 invariant [ncalls] tracelen(cb) == old(tracelen(cb)) + old(pcnt(el.handlers[typeof(event)], len(el.handlers[typeof(event)]), runningInAddEvent)) + rangeindex + 1
